@@ -372,6 +372,12 @@ def run(ctx):
     rule_cb_flush_output_conservation(ctx, cfg, r7)
     r8 = ctx.rule("R02.8", "bit buffer carried between blocks through params.saved_bit_buffer / saved_bits_in", floor=4, config=cfg)
     rule_bit_carry(ctx, cfg, r8)
+    from rules import c01 as _c01
+    from rules import deflate_proto as _dp
+    r10 = ctx.rule("R02.10", "dictionary invariants that every resumed call relies on: wrap-around mirror kept at every dictionary writer (also the "
+                   "start-of-stream / after-Full-flush refill), dict.size clamped after every refill", floor=8, config=cfg)
+    _c01.rule_mirror(ctx, cfg, r10)
+    _dp.rule_window_accounting(ctx, cfg, r10)
     r9 = ctx.rule("R02.9", "Done (end of stream) is reported only once finished ∧ nothing pending", floor=3, config=cfg)
     dp.rule_done_origin(ctx, cfg, r9)
     if ctx.thorough():
